@@ -68,12 +68,12 @@ macro_rules | `(tactic| inert_step) => `(tactic| (with_reducible refine Inert.re
 def InertCmd : Cmd → Prop
   | .hold _ | .yield | .timerAdd _ _ _ | .timerSet _ _ _ | .timerCancel _ | .timersClear | .resume _ _ | .interrupt _ _ _
   | .start _ | .waitProc _ | .schedUser _ _ _ | .cancelUser _ | .waitEvent _ | .setFlag _ _ | .recStart _ _ | .recStop _ _
-  | .pqPos _ _ => True
+  | .pqPos _ _ | .cancelUserAll => True
   | _ => False
 
 /-- these commands leave the waiting lists, the objects, the RESOURCE awaitables and the pending grants alone — provided
     the handles they cancel by value are not handles of grants -/
-theorem inert_execCmd (c : Cmd) (hc : InertCmd c)
+theorem inert_execCmd (c : Cmd) (hc : InertCmd c) (hi : EvInv w.ev)
     (hcv : ∀ v, (c = .cancelUser v ∨ c = .timerCancel v) → NG w (getVar w p v))
     (hat : ∀ k, Await.time k ∈ (w.proc p).awaits → NG w k) : Inert w (execCmd w p c).1 := by
   have h0 := Inert.refl w
@@ -94,6 +94,9 @@ theorem inert_execCmd (c : Cmd) (hc : InertCmd c)
     split
     · exact h0
     · exact h0.evCancel_fst _ (hcv v (Or.inl rfl))
+  | cancelUserAll =>
+    simp only [Sim.execCmd]
+    exact h0.cancelUserAll_fst hi
   | hold d => simp only [Sim.execCmd]; inert
   | yield => simp only [Sim.execCmd]; inert
   | timerAdd v d sig => simp only [Sim.execCmd]; inert
